@@ -37,7 +37,7 @@ type c08Case struct {
 	Dec  string `json:"dec"`            // goast-guess | goast-map | gotypes
 	// Reuse (file pairs): "" fresh Restorer per file | "restorer" one Restorer for both files | "filerestorer" one FileRestorer for both
 	Reuse string `json:"reuse,omitempty"`
-	Res   string `json:"res"`            // guess | simple | guess-map | gobuild-hints | gobuild-find
+	Res   string `json:"res"` // guess | simple | guess-map | gobuild-hints | gobuild-find
 }
 
 var c08Decs = []string{"goast-guess", "goast-map", "gotypes"}
